@@ -2,6 +2,7 @@
 From Coq Require Import List NArith String Bool.
 From W.gen Require Import Extracted TieLib.
 From W.model Require Import Pool PoolTracker.
+From W.model Require TrackerRace.
 Import ListNotations.
 Open Scope string_scope.
 Example tie_lockset :
@@ -43,4 +44,8 @@ Example tie_worker_fields :
 Proof. vm_compute; reflexivity. Qed.
 (* the progress tracker delivers ticks with a send that also listens to done *)
 Example tie_progress_tick : progress_ok progress_tick_send = true.
+Proof. vm_compute; reflexivity. Qed.
+(* every access of the progress counters (SingleTracker.current/total) is atomic, or every one
+   holds the tracker's mutex: the premise of C16_counters_no_race *)
+Example tie_progress_counters : TrackerRace.counters_ok progress_counter_access = true.
 Proof. vm_compute; reflexivity. Qed.
